@@ -85,7 +85,7 @@ def passive_hook(origin, target, params, state):
 class TraceRun:
     """One builder with a known start position; shapes are traced one after another."""
 
-    def __init__(self, start, mode, direction, resolution, dp=8, units=None, hook=False, transform=False, unknown=False):
+    def __init__(self, start, mode, direction, resolution, dp=8, units=None, hook=False, transform=False, unknown=False, bounds=False):
         self.st = Sut({"decimal_places": dp})
         g = self.st.g
         self.dp = dp
@@ -94,6 +94,8 @@ class TraceRun:
             g.set_length_units(units)
         g.set_resolution(float(resolution))
         g.set_direction(direction)
+        if bounds:
+            g.set_bounds("axes", (-1000, -1000, -1000), (1000, 1000, 1000))     # wide limits: only the far bypass target violates them
         if hook:
             g.add_hook(passive_hook)          # hooks see every move; this one hands the parameters back unchanged
         if transform:
